@@ -1109,7 +1109,24 @@ class ReplacingNodeVisitor(BaseNodeVisitor):
             return None
         lines = self._lines()
         lines_to_remove = analysis_lib.get_line_range_for_node(current_statement, lines)
-        return Replacement(lines_to_remove, [])
+        lines_to_add = []
+        if self._is_only_statement_in_block(current_statement):
+            # removing the only statement of a block would leave an empty block
+            indent = analysis_lib.get_indentation(lines[current_statement.lineno - 1])
+            lines_to_add = ["{}pass\n".format(" " * indent)]
+        return Replacement(lines_to_remove, lines_to_add)
+
+    def _is_only_statement_in_block(self, statement: ast.stmt) -> bool:
+        if self.tree is None:
+            return False
+        for parent in ast.walk(self.tree):
+            for field in ("body", "orelse", "finalbody"):
+                block = getattr(parent, field, None)
+                if isinstance(block, list) and any(
+                    child is statement for child in block
+                ):
+                    return len(block) == 1
+        return False
 
     def visit(self, node: ast.AST) -> Any:
         """Save the node if it is a statement."""
